@@ -1135,6 +1135,163 @@ theorem C08_graph_forward (rows : List Row) (ws : Waits) (w : Int × Int) (zl : 
     · exact C08_kernel_edges_forward rows _ ws _ zl _ hcausal d hd
   exact ⟨hf, C08_weights_nonneg rows ws w zl hf⟩
 
+/-! ### causal consistency stated on the trace: the kernel loop's sort order is consistent -/
+
+/-- The three-part key the kernel loop sorts by: a synchronisation record counts with its end, everything else with
+its start; then the end; then the start of the linked runtime call. -/
+def kkey (rows : List Row) (r : Row) : Int × Int × Int :=
+  (if r.cat == "cuda_sync" then r.ts + r.dur else r.ts, r.ts + r.dur, ((findRow rows r.link).map (·.ts)).getD 0)
+
+def kle (rows : List Row) (a b : Row) : Bool :=
+  let ka := kkey rows a
+  let kb := kkey rows b
+  decide (ka.1 < kb.1) || (ka.1 == kb.1 && (decide (ka.2.1 < kb.2.1) || (ka.2.1 == kb.2.1 && decide (ka.2.2 ≤ kb.2.2))))
+
+theorem kernelRows_eq (rows clipped : List Row) :
+    kernelRows rows clipped = (clipped.filter fun r =>
+      (r.stream != -1 || r.name == "Event Sync" || r.name == "Context Sync") && decide (r.link ≥ 0)).mergeSort (kle rows) := rfl
+
+theorem kle_trans (rows : List Row) (a b c : Row) (h1 : kle rows a b = true) (h2 : kle rows b c = true) :
+    kle rows a c = true := by
+  unfold kle at *
+  generalize kkey rows a = ka at *
+  generalize kkey rows b = kb at *
+  generalize kkey rows c = kc at *
+  obtain ⟨a1, a2, a3⟩ := ka
+  obtain ⟨b1, b2, b3⟩ := kb
+  obtain ⟨c1, c2, c3⟩ := kc
+  simp only [Bool.or_eq_true, Bool.and_eq_true, decide_eq_true_eq, beq_iff_eq] at *
+  omega
+
+theorem kle_total (rows : List Row) (a b : Row) : (kle rows a b || kle rows b a) = true := by
+  unfold kle
+  generalize kkey rows a = ka
+  generalize kkey rows b = kb
+  obtain ⟨a1, a2, a3⟩ := ka
+  obtain ⟨b1, b2, b3⟩ := kb
+  simp only [Bool.or_eq_true, Bool.and_eq_true, decide_eq_true_eq, beq_iff_eq]
+  omega
+
+/-- The kernel loop's rows are sorted by the key. -/
+theorem kernelRows_sorted (rows clipped : List Row) :
+    (kernelRows rows clipped).Pairwise fun a b => kle rows a b = true := by
+  rw [kernelRows_eq]
+  exact List.pairwise_mergeSort (le := kle rows) (kle_trans rows) (kle_total rows) _
+
+
+/-- Causal consistency stated on the trace alone (no reference to a processing order). `ks` is the set of rows the
+kernel loop looks at.
+* a device activity starts no earlier than its launch call and has a non-negative length (`launch`, `dur`);
+* two activities of one stream do not overlap (`noOverlap`);
+* a synchronisation record ends no later than the host call it belongs to (`recEnd`), and that call returns no
+  earlier than every activity of an awaited stream that started before the record ended (`sync`);
+* the two CUDA-event clauses of `Causal` (they do not mention the order). -/
+structure TraceCausal (rows clipped : List Row) (ws : Waits) (ks : List Row) : Prop where
+  ids : ∀ r ∈ ks, findRow rows r.idx = some r
+  dur : ∀ r ∈ ks, isK r = true → 0 ≤ r.dur
+  launch : ∀ r ∈ ks, isK r = true → hasNodeIn clipped r.link = true → tsOf rows ⟨r.link, true⟩ ≤ r.ts
+  noOverlap : ∀ a ∈ ks, ∀ b ∈ ks, isK a = true → isK b = true → a.stream = b.stream → a.idx ≠ b.idx →
+    a.ts + a.dur ≤ b.ts ∨ b.ts + b.dur ≤ a.ts
+  recEnd : ∀ b ∈ ks, isK b = false → (b.name = "Context Sync" ∨ b.name = "Stream Sync") →
+    b.ts + b.dur ≤ tsOf rows ⟨b.link, false⟩
+  sync : ∀ a ∈ ks, ∀ b ∈ ks, isK a = true → isK b = false →
+    (b.name = "Context Sync" ∨ (b.name = "Stream Sync" ∧ a.stream = b.stream)) →
+    a.ts < b.ts + b.dur → a.ts + a.dur ≤ tsOf rows ⟨b.link, false⟩
+  evsync : ∀ r ∈ ks, r.name = "Event Sync" →
+    tsOf rows ⟨linkOf rows (syncPrev rows ws r), false⟩ ≤ tsOf rows ⟨r.link, false⟩
+  wait : ∀ w ∈ ks, w.name = "Stream Wait Event" → ∀ nl, nextLaunch rows w.link = some nl →
+    tsOf rows ⟨linkOf rows (syncPrev rows ws w), false⟩ ≤ tsOf rows ⟨linkOf rows nl, true⟩
+
+theorem kkey_k {rows : List Row} {r : Row} (h : isK r = true) : (kkey rows r).1 = r.ts := by
+  unfold kkey isK at *
+  have : (r.cat == "cuda_sync") = false := by simpa [bne] using h
+  simp [this]
+
+theorem kkey_s {rows : List Row} {r : Row} (h : isK r = false) : (kkey rows r).1 = r.ts + r.dur := by
+  unfold kkey isK at *
+  have : (r.cat == "cuda_sync") = true := by simpa [bne] using h
+  simp [this]
+
+theorem kkey_2 (rows : List Row) (r : Row) : (kkey rows r).2.1 = r.ts + r.dur := rfl
+
+theorem kle_keys {rows : List Row} {a b : Row} (h : kle rows a b = true) :
+    (kkey rows a).1 < (kkey rows b).1 ∨ ((kkey rows a).1 = (kkey rows b).1 ∧ (kkey rows a).2.1 ≤ (kkey rows b).2.1) := by
+  unfold kle at h
+  generalize kkey rows a = ka at *
+  generalize kkey rows b = kb at *
+  obtain ⟨a1, a2, a3⟩ := ka
+  obtain ⟨b1, b2, b3⟩ := kb
+  simp only [Bool.or_eq_true, Bool.and_eq_true, decide_eq_true_eq, beq_iff_eq] at *
+  omega
+
+/-- **The order in which the kernel loop processes its rows is causally consistent whenever the trace is**: any list
+sorted by the loop's key (in particular `kernelRows`, see `kernelRows_sorted`) whose rows have distinct ids turns
+`TraceCausal` into `Causal`. -/
+theorem causal_of_traceCausal (rows clipped : List Row) (ws : Waits) (ks : List Row)
+    (hsorted : ks.Pairwise fun a b => kle rows a b = true)
+    (hdistinct : ks.Pairwise fun a b => a.idx ≠ b.idx)
+    (tc : TraceCausal rows clipped ws ks) : Causal rows clipped ws ks := by
+  have hboth := (hsorted.and hdistinct)
+  have hmem := List.Pairwise.and_mem.mp hboth
+  refine ⟨tc.ids, tc.dur, tc.launch, ?_, ?_, tc.evsync, tc.wait⟩
+  · -- stream order
+    apply hmem.imp
+    rintro a b ⟨ha, hb, hle, hne⟩ hka hkb hst
+    have hk := kle_keys hle
+    rw [kkey_k hka, kkey_k hkb, kkey_2, kkey_2] at hk
+    have hda := tc.dur a ha hka
+    have hdb := tc.dur b hb hkb
+    rcases tc.noOverlap a ha b hb hka hkb hst hne with h | h
+    · exact h
+    · omega
+  · -- blocking synchronisation
+    apply hmem.imp
+    rintro a b ⟨ha, hb, hle, _⟩ hka hkb hname
+    have hk := kle_keys hle
+    rw [kkey_k hka, kkey_s hkb, kkey_2, kkey_2] at hk
+    have hrec := tc.recEnd b hb hkb (by rcases hname with h | h; exact Or.inl h; exact Or.inr h.1)
+    rcases hk with hlt | ⟨_, hle2⟩
+    · exact tc.sync a ha b hb hka hkb hname hlt
+    · omega
+
+
+theorem kernelRows_distinct (rows clipped : List Row) (h : clipped.Pairwise fun a b => a.idx ≠ b.idx) :
+    (kernelRows rows clipped).Pairwise fun a b => a.idx ≠ b.idx := by
+  rw [kernelRows_eq]
+  have hf := h.filter (fun r => (r.stream != -1 || r.name == "Event Sync" || r.name == "Context Sync") && decide (r.link ≥ 0))
+  exact (List.mergeSort_perm _ _).symm.pairwise hf (fun hab => fun e => hab e.symm)
+
+/-- **The whole graph points forward in time and carries no negative weight — from trace-level hypotheses only**:
+unique event ids, non-negative durations, properly nested host threads (C03's `WF`) and a causally consistent trace
+(`TraceCausal`, which does not mention the order in which the rows are processed; that order is shown to be
+consistent by `kernelRows_sorted` and `causal_of_traceCausal`). -/
+theorem C08_graph_forward_of_trace (rows : List Row) (ws : Waits) (w : Int × Int) (zl : Bool)
+    (hrows : ∀ r ∈ clip rows w, findRow rows r.idx = some r)
+    (hunique : (clip rows w).Pairwise fun a b => a.idx ≠ b.idx)
+    (hdur : ∀ r ∈ clip rows w, 0 ≤ r.dur)
+    (hwf : ∀ t ∈ C13.threadsOf (clip rows w), C03.WF ((C13.threadRows (clip rows w) t).map fun r => (⟨r.idx, r.ts, max r.dur 0⟩ : C03.Ev)))
+    (htc : TraceCausal rows (clip rows w) ws (kernelRows rows (clip rows w))) :
+    (∀ e ∈ (build rows ws w zl).2.edges, Forward rows e) ∧ (∀ e ∈ (build rows ws w zl).2.edges, 0 ≤ e.weight) :=
+  C08_graph_forward rows ws w zl hrows hdur hwf
+    (causal_of_traceCausal rows _ ws _ (kernelRows_sorted rows _) (kernelRows_distinct rows _ hunique) htc)
+
+
+/-- Non-vacuity: the launch / kernel / Stream Sync example of `Causal` also meets the trace-level statement. -/
+example : TraceCausal exRows exRows [] [exK, exS] := by
+  refine ⟨?_, ?_, ?_, ?_, ?_, ?_, ?_, ?_⟩
+  · intro r hr; simp only [List.mem_cons, List.not_mem_nil, or_false] at hr; rcases hr with rfl | rfl <;> rfl
+  · intro r hr; simp only [List.mem_cons, List.not_mem_nil, or_false] at hr; rcases hr with rfl | rfl <;> decide
+  · intro r hr; simp only [List.mem_cons, List.not_mem_nil, or_false] at hr; rcases hr with rfl | rfl <;> decide
+  · intro a ha b hb
+    simp only [List.mem_cons, List.not_mem_nil, or_false] at ha hb
+    rcases ha with rfl | rfl <;> rcases hb with rfl | rfl <;> decide
+  · intro b hb; simp only [List.mem_cons, List.not_mem_nil, or_false] at hb; rcases hb with rfl | rfl <;> decide
+  · intro a ha b hb
+    simp only [List.mem_cons, List.not_mem_nil, or_false] at ha hb
+    rcases ha with rfl | rfl <;> rcases hb with rfl | rfl <;> decide
+  · intro r hr; simp only [List.mem_cons, List.not_mem_nil, or_false] at hr; rcases hr with rfl | rfl <;> decide
+  · intro r hr; simp only [List.mem_cons, List.not_mem_nil, or_false] at hr; rcases hr with rfl | rfl <;> intro h <;> simp [exK, exS] at h
+
 /-- **Towards acyclicity for all inputs**: under the hypotheses of `C08_graph_forward` two nodes that
 lie on a common cycle of the built graph carry the same time — a cycle, if there were one, would be
 confined to a single instant of the trace's clock. (That no such instantaneous cycle exists either is
